@@ -365,4 +365,71 @@ theorem processEntryY_ok {keys : List Str} {e : Entry} (key : Str) (h : entryOkT
   simp
 
 
+/-! ### all entries, `add_entries`, the whole tree -/
+
+theorem processEntriesY_ok : ∀ (es : List Entry) (keys : List Str), entriesOkT true keys es = true →
+    processEntriesY (es.map fun e => (e.key, entryNodeY e)) = .ok (es.map fun e => (e.key, e), []) := by
+  intro es
+  induction es with
+  | nil => intro _ _; rfl
+  | cons e es ih =>
+    intro keys h
+    simp only [entriesOkT, Bool.and_eq_true] at h
+    simp only [List.map_cons, processEntriesY, processEntryY_ok e.key h.1, ih _ h.2]
+    rfl
+
+theorem addEntryPlain_fresh (acc : List Entry) (rep : List Str) (e : Entry)
+    (h : acc.any (fun x => lower x.key = lower e.key) = false) :
+    addEntryPlain (acc, rep) e.key e = (acc ++ [e], rep) := by
+  have he : ({ e with key := e.key } : Entry) = e := by cases e; rfl
+  simp only [addEntryPlain, h, Bool.false_eq_true, if_false, he]
+
+theorem addEntries_fold : ∀ (es : List Entry) (keys : List Str) (yaml : Bool) (acc : List Entry) (rep : List Str),
+    entriesOkT yaml keys es = true → (∀ x ∈ acc, lower x.key ∈ keys) →
+    (es.map fun e => (e.key, e)).foldl (fun a p => addEntryPlain a p.1 p.2) (acc, rep) = (acc ++ es, rep) := by
+  intro es
+  induction es with
+  | nil => intro _ _ acc rep _ _; simp
+  | cons e es ih =>
+    intro keys yaml acc rep h hacc
+    simp only [entriesOkT, Bool.and_eq_true] at h
+    obtain ⟨h1, h2⟩ := h
+    have hfresh : lower e.key ∉ keys := by
+      simp only [entryOkT, Bool.and_eq_true, Bool.not_eq_true'] at h1
+      simpa using h1.1.1.2
+    have hany : acc.any (fun x => lower x.key = lower e.key) = false := by
+      rw [List.any_eq_false]
+      intro x hx heq
+      simp only [decide_eq_true_eq] at heq
+      have := hacc x hx
+      rw [heq] at this
+      exact hfresh this
+    simp only [List.map_cons, List.foldl_cons]
+    rw [addEntryPlain_fresh acc rep e hany, ih (lower e.key :: keys) yaml (acc ++ [e]) rep h2
+      (by intro x hx; simp only [List.mem_append, List.mem_singleton] at hx
+          rcases hx with hx | rfl
+          · exact List.mem_cons_of_mem _ (hacc x hx)
+          · exact List.mem_cons_self)]
+    simp
+
+theorem addEntries_id {yaml : Bool} {es : List Entry} (h : entriesOkT yaml [] es = true) :
+    addEntries (es.map fun e => (e.key, e)) = (es, []) := by
+  unfold addEntries
+  rw [addEntries_fold es [] yaml [] [] h (by simp)]
+  simp
+
+theorem yaml_roundtrip (d : BibData) (h : WFDbTree true d = true) :
+    ofDictYaml (toDictYaml d) =
+      .ok { db := canonDb d, badNames := [], repeated := [], others := 0 } := by
+  unfold WFDbTree at h
+  unfold toDictYaml ofDictYaml
+  have hget1 : ∀ rest, odGet (("entries".toList, YNode.map (d.entries.map fun e => (e.key, entryNodeY e))) :: rest)
+      "entries".toList = some (YNode.map (d.entries.map fun e => (e.key, entryNodeY e))) := by
+    intro rest; simp [odGet]
+  simp only [List.singleton_append, hget1, processEntriesY_ok d.entries [] h, addEntries_id h]
+  by_cases hp : d.preambleText = []
+  · simp [hp, odGet, canonDb, canonPreamble]
+  ·     simp [hp, odGet, canonDb, canonPreamble]
+
+
 end Pybtex.C02.Yaml
